@@ -8,4 +8,4 @@ Extraction "C17_model.ml"
   recv_new poll_data stop_sending recv_id underlying
   bidi_new open_bidi open_send accept_recv accept_bidi conn_close send_datagram poll_incoming_datagram spec_dgram_class
   spec_handed spec_stream_id spec_conn_class spec_read_class spec_write_class spec_refusal spec_reset_code
-  stop_run quinn_write_condition quinn_read_condition spec_write_fault spec_read_fault.
+  stop_run quinn_write_condition quinn_read_condition spec_write_fault spec_read_fault spec_reads.
